@@ -144,9 +144,9 @@ Lemma rep_of_checks exts proto : checks exts proto -> representable_prototype ex
 Proof.
   intros (H1 & H2 & (mpp & H3) & _). split; [|apply packet_margin_iff; eauto].
   pose proof (validate_prototype_ok proto H1) as R. unfold rules_part in R.
-  destruct R as (R1 & R2 & R3 & R4 & R5 & R6 & R7 & R8 & R9 & R10 & R11 & R12 & R13 & R14 & R15 & R16 & R17 & R18 & _).
+  destruct R as (R1 & R2 & R3 & R4 & R5 & R6 & R7 & R8 & R9 & R10 & R11 & R12 & R13 & R14 & R15 & R16 & R17 & R18 & _ & R19).
   unfold representable_prototype. repeat (split; [assumption|]).
-  split; [apply (ext_validate_prototype_ok proto exts H2)|apply (capacity_fits proto mpp H3)].
+  split; [apply (ext_validate_prototype_ok proto exts H2)|split; [apply (capacity_fits proto mpp H3)|exact R19]].
 Qed.
 
 Theorem good_step lv a c : good lv a -> aacc a c -> call_wf c -> good lv (astep lv a c).
@@ -344,10 +344,38 @@ Lemma range_fill p : forallb (fun r => range_nonempty (r_type r)) (map FR p) = f
 Proof.
   induction p as [|r p IH]; [reflexivity|]. cbn [map forallb]. rewrite IH. f_equal. destruct r as [n t]. destruct t; reflexivity.
 Qed.
-Lemma validate_prototype_fill p : validate_prototype (map FR p) = validate_prototype p.
+(** scale and offset of scaled integers (they enter the bounds) and the limits of float records
+    (they are compared by the prototype check; an accepted prototype has no NaN there at all) are
+    not NaNs with a payload *)
+Definition proto_canonical (p : list record) : Prop :=
+  forall r, In r p ->
+    match r_type r with
+    | DScaledInteger _ _ s o => canon64 (f64_bits s) = f64_bits s /\ canon64 (f64_bits o) = f64_bits o
+    | DSingle mn mx => (forall x, mn = Some x -> canon32 (f32_bits x) = f32_bits x) /\
+                       (forall x, mx = Some x -> canon32 (f32_bits x) = f32_bits x)
+    | DDouble mn mx => (forall x, mn = Some x -> canon64 (f64_bits x) = f64_bits x) /\
+                       (forall x, mx = Some x -> canon64 (f64_bits x) = f64_bits x)
+    | _ => True
+    end.
+
+Lemma flimits_fill p : proto_canonical p ->
+  forallb (fun r => float_limits_ok (r_type r)) (map FR p) = forallb (fun r => float_limits_ok (r_type r)) p.
 Proof.
+  induction p as [|r p IH]; intros Hc; [reflexivity|]. cbn [map forallb].
+  rewrite IH by (intros q Hq; apply Hc; right; exact Hq). f_equal.
+  specialize (Hc r (or_introl eq_refl)). destruct r as [n t]. cbn [r_type fill_rec] in *.
+  destruct t as [mn mx|mn mx| |]; try reflexivity; destruct Hc as [C1 C2]; cbn [fill_type float_limits_ok]; f_equal.
+  - destruct mn as [x|]; [|reflexivity]. cbn. unfold f64_of_t32, fill32. cbn. rewrite (C1 x eq_refl). reflexivity.
+  - destruct mx as [x|]; [|reflexivity]. cbn. unfold f64_of_t32, fill32. cbn. rewrite (C2 x eq_refl). reflexivity.
+  - destruct mn as [x|]; [|reflexivity]. cbn. unfold f64_of_t64, fill64. cbn. rewrite (C1 x eq_refl). reflexivity.
+  - destruct mx as [x|]; [|reflexivity]. cbn. unfold f64_of_t64, fill64. cbn. rewrite (C2 x eq_refl). reflexivity.
+Qed.
+
+Lemma validate_prototype_fill p : proto_canonical p -> validate_prototype (map FR p) = validate_prototype p.
+Proof.
+  intros Hcan.
   unfold validate_prototype, validate_cartesian, validate_spherical, validate_color, validate_return, count3.
-  rewrite !validate_flag_fill, !int_present_fill, !not_int_present_fill, !contains_fill, nodup_fill, range_fill. reflexivity.
+  rewrite !validate_flag_fill, !int_present_fill, !not_int_present_fill, !contains_fill, nodup_fill, range_fill, (flimits_fill p Hcan). reflexivity.
 Qed.
 Lemma ext_validate_fill exts : forall p, ext_validate_prototype (map FR p) exts = ext_validate_prototype p exts.
 Proof.
@@ -362,21 +390,13 @@ Lemma i64_fill p : proto_i64 p -> proto_i64 (map FR p).
 Proof.
   intros H q Hq. apply in_map_iff in Hq as (r & <- & Hr). specialize (H r Hr). destruct r as [n t]. destruct t; exact H.
 Qed.
-Lemma checks_fill exts p : checks exts p -> checks exts (map FR p).
+Lemma checks_fill exts p : proto_canonical p -> checks exts p -> checks exts (map FR p).
 Proof.
-  intros (H1 & H2 & H3 & H4). unfold checks. rewrite validate_prototype_fill, ext_validate_fill, dtypes_fill.
+  intros Hcan (H1 & H2 & H3 & H4). unfold checks. rewrite (validate_prototype_fill p Hcan), ext_validate_fill, dtypes_fill.
   auto using i64_fill.
 Qed.
 Lemma bounds_new_fill p : bounds_new (map FR p) = bounds_new p.
 Proof. unfold bounds_new. rewrite !contains_fill. reflexivity. Qed.
-
-(** scale and offset of scaled integers are not NaNs with a payload: they enter the bounds *)
-Definition proto_canonical (p : list record) : Prop :=
-  forall r, In r p ->
-    match r_type r with
-    | DScaledInteger _ _ s o => canon64 (f64_bits s) = f64_bits s /\ canon64 (f64_bits o) = f64_bits o
-    | _ => True
-    end.
 
 Lemma update_bounds_fill : forall p vs b, proto_canonical p -> update_bounds (map FR p) vs b = update_bounds p vs b.
 Proof.
@@ -585,19 +605,21 @@ Definition copied_pair (x : pointcloud * list (list rvalue)) := (copied (FP (fst
 
 Lemma copy_pcs_run : forall xs a, a_fin a = false -> a_sub a = ANone ->
   Forall (pc_src_ok (a_exts a)) xs -> Forall (fun x => custom_limits_ok true true (fst x) = true) xs ->
+  Forall (fun x => proto_canonical (pc_prototype (fst x))) xs ->
   let cs := pcs_copy (map (fun x => FP (fst x)) xs) (map snd xs) in
   aacc_calls lv a cs /\
   arun lv a cs = mkAs (a_root a) (a_exts a) (a_pcs a ++ map copied_pair xs) ANone (a_fin a).
 Proof.
-  induction xs as [|[pc pts] xs IH]; intros a Hf Hs Hok Hlim; cbv zeta.
+  induction xs as [|[pc pts] xs IH]; intros a Hf Hs Hok Hlim Hcn; cbv zeta.
   - cbn [map pcs_copy aacc_calls arun]. rewrite app_nil_r. split; [exact I|]. destruct a; cbn in *; subst; reflexivity.
-  - inversion Hok as [|? ? Hx Hok']; subst. inversion Hlim as [|? ? Hl Hlim']; subst. cbn [fst snd] in *.
+  - inversion Hok as [|? ? Hx Hok']; subst. inversion Hlim as [|? ? Hl Hlim']; subst.
+    inversion Hcn as [|? ? Hc1 Hcn']; subst. cbn [fst snd] in *.
     destruct Hx as (Hc & Hp & _). cbn [fst snd] in Hc, Hp.
     cbn [map pcs_copy fst snd]. rewrite arun_pc_copy.
-    destruct (IH (push a (copied (FP pc) pts, pts)) Hf eq_refl Hok' Hlim') as [I1 I2]. cbv zeta in I1, I2.
+    destruct (IH (push a (copied (FP pc) pts, pts)) Hf eq_refl Hok' Hlim' Hcn') as [I1 I2]. cbv zeta in I1, I2.
     split.
     + cbn [aacc_calls aacc]. change (pc_prototype (FP pc)) with (map FR (pc_prototype pc)).
-      destruct (rep_of_checks _ _ (checks_fill fmt64 fmt32 _ _ Hc)) as [R1 R2].
+      destruct (rep_of_checks _ _ (checks_fill fmt64 fmt32 _ _ Hc1 Hc)) as [R1 R2].
       split; [auto|]. unfold pc_body. rewrite <- app_assoc. apply aacc_calls_app. split; [apply aacc_sets|].
       cbn [astep]. erewrite arun_sets by reflexivity. apply aacc_calls_app.
       split.
@@ -640,11 +662,12 @@ Definition copied_root (r : root) : root :=
 
 Theorem copy_abs : forall aP imgs, good lv aP ->
   Forall (fun x => custom_limits_ok true true (fst x) = true) (a_pcs aP) ->
+  Forall (fun x => proto_canonical (pc_prototype (fst x))) (a_pcs aP) ->
   let P2 := copy_calls (abs_view aP imgs) (map snd (a_pcs aP)) in
   aacc_calls lv a_init P2 /\
   arun lv a_init P2 = mkAs (copied_root (a_root aP)) (a_exts aP) (map (copied_pair fmt64 fmt32) (a_pcs aP)) ANone true.
 Proof.
-  intros aP imgs (Hr & He & Hp & _) Hlim P2. subst P2. unfold copy_calls, copy_tops, abs_view.
+  intros aP imgs (Hr & He & Hp & _) Hlim Hcn P2. subst P2. unfold copy_calls, copy_tops, abs_view.
   destruct Hr as (R1 & R2 & R3 & R4 & R5).
   destruct (a_root aP) as [f g ma mi l cr cm] eqn:Er. cbn in R1, R2, R3, R4, R5. subst.
   cbn [fm_root fm_extensions fm_pointclouds Spec.XeMetaOk.reader_root fill_root rt_guid rt_coordinate_metadata rt_creation
@@ -655,7 +678,7 @@ Proof.
   destruct (reg_run lv (a_exts aP) a3 He) as [G1 G2]. cbn [a3 a_root a_exts a_pcs a_sub a_fin app] in G2.
   rewrite aacc_calls_app, arun_app, G2.
   set (a4 := mkAs _ (a_exts aP) [] ANone false).
-  destruct (copy_pcs_run fmt64 fmt32 lv (a_pcs aP) a4 eq_refl eq_refl Hp Hlim) as [G3 G4]. cbv zeta in G3, G4.
+  destruct (copy_pcs_run fmt64 fmt32 lv (a_pcs aP) a4 eq_refl eq_refl Hp Hlim Hcn) as [G3 G4]. cbv zeta in G3, G4.
   rewrite aacc_calls_app, arun_app, G4. cbn [a4 a_root a_exts a_pcs a_sub a_fin app aacc_calls arun aacc astep].
   split; [auto 8|]. unfold copied_root. cbn. reflexivity.
 Qed.
@@ -900,7 +923,9 @@ Proof.
   (* the copy, on the abstract state *)
   assert (EP2 : P2 = copy_calls (abs_view fmt64 fmt32 aP (map (fill_im fmt64) (ws_imgs st))) (map snd (a_pcs aP))).
   { unfold P2, m'. rewrite Epts. apply copy_calls_abs. exact Habs. }
-  destruct (copy_abs fmt64 fmt32 L aP (map (fill_im fmt64) (ws_imgs st)) Hgood Hlim) as [Hacc2 Hrun2]. cbv zeta in Hacc2, Hrun2.
+  assert (Hcn : Forall (fun x => proto_canonical (pc_prototype (fst x))) (a_pcs aP)).
+  { eapply Forall_impl; [|exact Hcanon]. intros x [_ H]. exact H. }
+  destruct (copy_abs fmt64 fmt32 L aP (map (fill_im fmt64) (ws_imgs st)) Hgood Hlim Hcn) as [Hacc2 Hrun2]. cbv zeta in Hacc2, Hrun2.
   rewrite <- EP2 in Hacc2, Hrun2.
   assert (Hu2 : units tops2) by apply copy_tops_units.
   assert (Hni2 : Forall not_im tops2).
@@ -976,7 +1001,7 @@ Definition call_extra (c : wcall) : Prop :=
   | NewWriter guid => string_ok guid = true
   | SetCoordinateMetadata v => opt_string_ok v = true
   | RegisterExtension ns url => chars_ok url = true
-  | AddPointcloud guid proto => string_ok guid = true
+  | AddPointcloud guid proto => string_ok guid = true /\ forallb (fun r => float_bits_ok (r_type r)) proto = true
   | PcSet f => pc_field_ok f
   | AddImage guid => string_ok guid = true
   | ImSet f => im_field_ok f
@@ -997,13 +1022,31 @@ Proof.
   destruct a, b, c, d, e, f; cbn; rewrite ?lv_ok_fill; reflexivity.
 Qed.
 
+Lemma canon64_lt b : b < 2 ^ 64 -> canon64 b < 2 ^ 64.
+Proof. intros H. unfold canon64. destruct (_ && _); [reflexivity|exact H]. Qed.
+Lemma canon32_lt b : b < 2 ^ 32 -> canon32 b < 2 ^ 32.
+Proof. intros H. unfold canon32. destruct (_ && _); [reflexivity|exact H]. Qed.
+Lemma float_bits_fill t : float_bits_ok t = true -> float_bits_ok (fill_type fmt64 fmt32 t) = true.
+Proof.
+  destruct t as [mn mx|mn mx| |]; try (intros; reflexivity); cbn [float_bits_ok fill_type]; intros H;
+    apply andb_prop in H as [H1 H2]; apply andb_true_intro; split.
+  - destruct mn; [|reflexivity]. cbn in *. apply N.ltb_lt. apply canon32_lt. apply N.ltb_lt. exact H1.
+  - destruct mx; [|reflexivity]. cbn in *. apply N.ltb_lt. apply canon32_lt. apply N.ltb_lt. exact H2.
+  - destruct mn; [|reflexivity]. cbn in *. apply N.ltb_lt. apply canon64_lt. apply N.ltb_lt. exact H1.
+  - destruct mx; [|reflexivity]. cbn in *. apply N.ltb_lt. apply canon64_lt. apply N.ltb_lt. exact H2.
+Qed.
+
 Lemma pc_copy_extra exts : forall pcs pts, Forall (pc_good exts) pcs -> Forall call_extra (pcs_copy (map FP pcs) pts).
 Proof.
   induction pcs as [|pc r IH]; intros [|p q] H; cbn [map pcs_copy]; try constructor.
-  - inversion H as [|? ? (_ & _ & Hs & _) _]; subst. cbn [call_extra]. unfold pc_strings in Hs.
-    repeat (apply andb_prop in Hs as [Hs ?]). destruct pc. cbn in *. unfold guid_of. cbn.
-    destruct pc_guid; [assumption|reflexivity].
-  - inversion H as [|? ? (_ & _ & Hs & _ & Hil & Hcl) H']; subst. unfold pc_body. rewrite <- app_assoc. apply Forall_app. split.
+  - inversion H as [|? ? (_ & _ & Hs & _ & _ & _ & Hlg) _]; subst. cbn [call_extra]. split.
+    + unfold pc_strings in Hs. repeat (apply andb_prop in Hs as [Hs ?]). destruct pc. cbn in *. unfold guid_of. cbn.
+      destruct pc_guid; [assumption|reflexivity].
+    + change (pc_prototype (FP pc)) with (map (fill_rec fmt64 fmt32) (pc_prototype pc)).
+      unfold proto_limits_good in Hlg. rewrite forallb_forall in *. intros rc Hr. apply in_map_iff in Hr as (r0 & <- & Hr0).
+      cbn [fill_rec r_type]. apply float_bits_fill. specialize (Hlg r0 Hr0). unfold limits_good in Hlg.
+      apply andb_prop in Hlg as [_ Hlg]. exact Hlg.
+  - inversion H as [|? ? (_ & _ & Hs & _ & Hil & Hcl & _) H']; subst. unfold pc_body. rewrite <- app_assoc. apply Forall_app. split.
     { unfold pc_strings in Hs. repeat (apply andb_prop in Hs as [Hs ?]).
       destruct pc. cbn in *. repeat constructor; cbn [call_extra pc_field_ok]; try assumption; try exact I.
       - rewrite il_ok_fill. exact Hil.
